@@ -34,9 +34,14 @@ InBounds(S, vals) ==
        LET b == DocBounds[S][i] IN b[1] = NoB \/ (FxLe(DocFx(b[1]), FxOf(vals[i])) /\ FxLe(FxOf(vals[i]), DocFx(b[2])))
   /\ (S \in {"hwb", "okhwb"} => FxLe(FxAdd(FxOf(vals[2]), FxOf(vals[3])), FxOne))
 
+(* HSL saturation is d / (1 - |2l - 1|): near black and white the divisor is small and the rounding of d is
+   amplified by its reciprocal (f32: (1, 0.999066, 1) has saturation 1.000064), so its slack is divided by that span *)
+HslSpan(vals) == FxMax(FxSub(FxOne, FxAbs(FxSub(FxMulInt(FxOf(vals[3]), 2), FxOne))), FxEps(16))
 InBoundsSlack(S, t, vals) ==
   /\ \A i \in 1..NComp(S) :
-       LET b == DocBounds[S][i]  sl == FxMul(RevSlack(S, t), RangeOf(S, i))
+       LET b == DocBounds[S][i]
+           sl0 == FxMul(RevSlack(S, t), RangeOf(S, i))
+           sl == IF S = "hsl" /\ i = 2 THEN FxDiv(sl0, HslSpan(vals)) ELSE sl0
        IN b[1] = NoB \/ FxBetween(FxOf(vals[i]), DocFx(b[1]), DocFx(b[2]), sl)
   /\ (S \in {"hwb", "okhwb"} => FxLe(FxAdd(FxOf(vals[2]), FxOf(vals[3])), FxAdd(FxOne, RevSlack(S, t))))
 
